@@ -863,7 +863,13 @@ impl Runner {
     /// outputs. Returns false if the call budget ran out while still moving.
     pub fn finish(&mut self, max_calls: usize) -> bool {
         let mut budget = max_calls;
+        // A source without inputs may be infinite: bound the completion phase.
+        let mut rounds_left = if self.dut.ins.is_empty() { 64 } else { usize::MAX };
         loop {
+            if rounds_left == 0 || (self.dut.ins.is_empty() && self.dut.outs.iter().any(|o| o.collected_len() > 2_000_000)) {
+                return true;
+            }
+            rounds_left -= 1;
             let mut progress = false;
             for i in 0..self.dut.ins.len() {
                 if self.dut.ins[i].pending() > 0 && self.feed(i, usize::MAX / 4) > 0 {
